@@ -102,7 +102,9 @@ Proof. exact tables_sorted_thm. Qed.
     resolution means the declarative statement against the flat list of ids. *)
 Theorem C20_checker_sound :
   (forall k len l, short_ok k len l = true -> short_holds k len l) /\
-  (forall pfx l r positions, res_spec pfx l r positions = true -> res_holds pfx l r positions).
+  (forall pfx l r positions, res_spec pfx l r positions = true -> res_holds pfx l r positions) /\
+  (forall k len names ids lower, refs_short_ok k len names ids lower = true ->
+     refs_short_holds k len names ids lower).
 Proof. exact checker_sound_thm. Qed.
 
 Example C20_nonvacuous :
